@@ -59,6 +59,23 @@ func (p *Prog) replay(o *Oblig, dir, repo, verif, workdir string) ReplayResult {
 		reproduced = p.concretize(o, &rf, repo, verif, path, workdir)
 	} else {
 		rf.Note = "the solver gave no model (" + o.Result.Status + "): the obligation could not be discharged on this tree"
+		// a committed scenario replay for the unit can still demonstrate the failure on the real code
+		if e := o.Enc; e != nil && e.Fn != nil {
+			if testSrc := findReplayTest(verif, e.Unit); testSrc != "" {
+				inputs := map[string]interface{}{"obligation": o.Name, "unit": e.Unit, "model": "none"}
+				rf.Inputs = inputs
+				pkgDir := filepath.Dir(p.Fset.Position(e.Fn.Pos()).Filename)
+				rel, _ := filepath.Rel(repo, pkgDir)
+				ib, _ := json.MarshalIndent(inputs, "", " ")
+				os.WriteFile(path+".input.json", ib, 0o644)
+				outText, failed := runReplayTest(repo, rel, testSrc, path+".input.json")
+				rf.TestFile, rf.TestPkg, rf.TestOutput = testSrc, "./"+rel, truncate(outText, 6000)
+				if failed && strings.Contains(outText, "GOVC-REPRODUCED") {
+					rf.Note = "no model from the solver (" + o.Result.Status + "); the committed scenario replay for this unit fails on the real code (see test_output)"
+					reproduced = true
+				}
+			}
+		}
 	}
 	rf.Reproduced = reproduced
 	b, _ := json.MarshalIndent(rf, "", " ")
@@ -224,22 +241,7 @@ func (p *Prog) concretize(o *Oblig, rf *replayFile, repo, verif, replayPath, wor
 		rf.SolverOut = truncate(GetModel(o.Query(0), nil, filepath.Join(workdir, fmt.Sprintf("model-%x", hashStr(o.Name))), 20, o.Result.Backend), 6000)
 		return false
 	}
-	clean := strings.NewReplacer("(", "", ")", "", "*", "").Replace(e.Unit)
-	testSrc := ""
-	cands := []string{clean}
-	if i := strings.LastIndex(clean, "."); i > 0 {
-		cands = append(cands, clean[:i]) // pkg.Type for methods, pkg for functions
-		if j := strings.Index(clean, "."); j > 0 && j < i {
-			cands = append(cands, clean[:j])
-		}
-	}
-	for _, c := range cands {
-		f := filepath.Join(verif, "replay", c+"_test.go")
-		if _, err := os.Stat(f); err == nil {
-			testSrc = f
-			break
-		}
-	}
+	testSrc := findReplayTest(verif, e.Unit)
 	if testSrc == "" {
 		rf.Note = "no replay test is committed for unit " + e.Unit + "; the model is attached in solver_output"
 		rf.SolverOut = truncate(GetModel(o.Query(0), nil, filepath.Join(workdir, fmt.Sprintf("model-%x", hashStr(o.Name))), 20, o.Result.Backend), 6000)
@@ -522,4 +524,23 @@ func cmdReplay(path, repo string) int {
 	}
 	fmt.Println("not reproduced")
 	return 0
+}
+
+// findReplayTest looks for /verif/replay/<unit>_test.go, then <pkg>.<Type>_test.go, then <pkg>_test.go.
+func findReplayTest(verif, unit string) string {
+	clean := strings.NewReplacer("(", "", ")", "", "*", "").Replace(unit)
+	cands := []string{clean}
+	if i := strings.LastIndex(clean, "."); i > 0 {
+		cands = append(cands, clean[:i])
+		if j := strings.Index(clean, "."); j > 0 && j < i {
+			cands = append(cands, clean[:j])
+		}
+	}
+	for _, c := range cands {
+		f := filepath.Join(verif, "replay", c+"_test.go")
+		if _, err := os.Stat(f); err == nil {
+			return f
+		}
+	}
+	return ""
 }
